@@ -50,6 +50,7 @@ var Prop = &engine.Prop{
 		{Name: "gate", Quick: 1500, Thorough: 120000, Fn: gateCase},
 		{Name: "stress", Quick: 24, Thorough: 1200, Repeat: 20, Fn: stressCase},
 		{Name: "abandon", Quick: 300, Thorough: 12000, Fn: abandonCase},
+		{Name: "stop-backlog", Quick: 300, Thorough: 12000, Fn: stopBacklogCase},
 	},
 	Floors: map[string]int64{
 		"coherence_checks_on_cached_keys": 2000,
